@@ -5,12 +5,25 @@ from searchlib import Case, run_cases
 from core import call_impl
 
 
+# alphabets outside ACDEFGHIKLMNPQRSTVWY (round 3): ambiguity codes / stop marker, remaining capitals, lowercase,
+# digits, gap / punctuation / whitespace, non-ASCII (Latin-1, BMP, astral), and mixtures with amino-acid letters
+NON_AA_PAIRS = ['XB', 'Z*', 'ac', 'x7', '01', '-.', ' _', 'é中', '\U0001F600ß', 'AX', 'c*', 'Cc']
+NON_AA_ALPHABETS = ['XBZ*', 'BJOUXZ', 'acdefghiklmnpqrstvwy', 'xyz', '0123456789', 'ACGT-.* ', 'AX', 'aA1*',
+                    'é中\U0001F600ßж', 'ACDXBZ*acd']
+RELABEL_TARGETS = ['abcdefghijklmnopqrstuvwxyz', 'BJOUXZ*0123456789-._ #', 'éèêëàâäçîïôöùûüÿßжд中文字\U0001F600\U0001F601',
+                   'ACDEFGHIKLXBZ*acdefghikl']
+
+
 def run(ctx):
     import pyrepseq.nn as nn
     rng = ctx.rng
     ctx.rule = ('(a) every string of length <= L over {A,C} and <= L-1 over {A,C,D}, each duplicated once, shuffled, '
                 'all pairs in ONE call, k = 1..3; (b) random clonal repertoires (20 letters, unicode in thorough) incl. '
-                'homopolymers, empty string, strings shorter than k, k = 1..4; both symdel and nearest_neighbor. '
+                'homopolymers, empty string, strings shorter than k, k = 1..4; both symdel and nearest_neighbor; '
+                '(c) [round 3] alphabets OUTSIDE the 20 amino-acid letters (X/B/Z/*, other capitals, lowercase, digits, '
+                'punctuation/gap characters, non-ASCII incl. astral code points): every string up to a length bound over '
+                '2-letter such alphabets (each fn, k = 1..3) and about a third of the random repertoires, either grown '
+                'directly over such an alphabet or an amino-acid repertoire re-lettered through a random injective map. '
                 'non-trivial := expected result holds an insertion/deletion pair and a distance-0 pair')
     cases = []
 
@@ -33,15 +46,43 @@ def run(ctx):
         cases.append(mk(nn.symdel, 'symdel[exhaustive]', seqs, k, 'api_brute_self_lev'))
         sub = rng.sample(base, 14) + rng.sample(base, 6)
         cases.append(mk(nn.nearest_neighbor, 'nearest_neighbor[exhaustive-sub]', sub, k, 'api_symdel_self_lev'))
+    # (c1) exhaustive over 2-letter alphabets that share nothing with the 20 amino-acid letters, and mixed ones:
+    # the statement says ANY alphabet, so nothing in the search may depend on a letter being an amino acid
+    pool2 = list(NON_AA_PAIRS)
+    rng.shuffle(pool2)
+    Lc = 3 if ctx.quick else 4
+    for n2, al in enumerate(pool2 if not ctx.quick else pool2[:4]):
+        b2 = all_strings(al, Lc)
+        for k in (1, 2, 3):
+            seqs = b2 + b2
+            rng.shuffle(seqs)
+            # alternate which public function gets the brute-force-specified model; both see every alphabet and k
+            cases.append(mk(nn.nearest_neighbor, 'nearest_neighbor[exhaustive %r]' % al, seqs, k, 'api_brute_self_lev'))
+            seqs = list(seqs)
+            rng.shuffle(seqs)
+            cases.append(mk(nn.symdel, 'symdel[exhaustive %r]' % al, seqs, k,
+                            'api_symdel_self_lev' if len(seqs) <= 14 else 'api_brute_self_lev'))
+            ctx.count('exhaustive_nonAA k=%d' % k)
     ctx.exhaustive = True
     # (b) random repertoires
     nrep = 120 if ctx.quick else 2500
     for t in range(nrep):
         n = rng.randint(1, 60 if ctx.quick else 250)
         alpha = gens.AA
+        relabel = None
         if not ctx.quick and t % 7 == 0:
             alpha = 'ACé中\U0001F600xyz'
+        elif t % 3 == 0:
+            # (c2) a repertoire grown over a non-amino-acid alphabet (roots keep the C...F/W frame, edits use the alphabet)
+            alpha = rng.choice(NON_AA_ALPHABETS)
+        elif t % 3 == 1 and t % 4 < 2:
+            # (c3) an amino-acid repertoire re-lettered by a random injective map: same distances, no amino-acid letter left
+            relabel = rng.choice(RELABEL_TARGETS)
         seqs = repertoire(rng, n, alpha)
+        if relabel is not None:
+            tgt = rng.sample(relabel, len(gens.AA))
+            seqs = [x.translate(str.maketrans(gens.AA, ''.join(tgt))) for x in seqs]
+        ctx.count('alphabet=AA' if alpha is gens.AA and relabel is None else 'alphabet=non-AA')
         k = rng.choice([1, 1, 2, 2, 3, 4])
         fn, fname = (nn.symdel, 'symdel') if t % 2 else (nn.nearest_neighbor, 'nearest_neighbor')
         small = n <= 14 and k <= 2
@@ -73,5 +114,7 @@ def replay(ctx, obj):
     r = obj['replay']
     seqs = r['seqs']
     k = r['request'][1][0]
-    c = Case('replay', lambda: nn.symdel(list(seqs), max_edits=k), ('api_brute_self_lev', [k, seqs]), seqs=seqs, site='nn.symdel')
+    # replay through the public function that failed (nearest_neighbor need not be the same code path as symdel)
+    fn = nn.nearest_neighbor if str(r.get('case', '')).startswith('nearest_neighbor') else nn.symdel
+    c = Case('replay', lambda: fn(list(seqs), max_edits=k), ('api_brute_self_lev', [k, seqs]), seqs=seqs, site='nn.symdel')
     run_cases(ctx, [c])
